@@ -163,6 +163,12 @@ func (node *DateNode) Sub(node2 *DateNode) (min Duration, max Duration, errs err
 }
 
 func (node *DateNode) Warnings() Warnings {
+	// A date that does not exist (such as the baptism of an individual that has
+	// none) is not an unparsable date.
+	if node == nil {
+		return nil
+	}
+
 	if !node.IsValid() {
 		return Warnings{
 			NewUnparsableDateWarning(node),
